@@ -309,6 +309,7 @@ def oracle(ctx, volume=1):
     g = ctx.npgen(f"oracle{volume}")
     flow_clauses(ctx, g, volume)
     single_setting_clauses(ctx, g, volume)
+    global_stream_clause(ctx, g, volume)
     noise_clauses(ctx, g, volume)
     seed_clause(ctx, g, volume)
     ctx.rule = ("one case = one real simulation run compared with its repetition / another worker configuration / its "
@@ -470,6 +471,59 @@ def single_setting_clauses(ctx, g, volume):
                 ctx.violate(f"C15/single-setting/{tag}/repetitions-identical",
                             f"n_rep={n_rep}, num_data={num_data}: repetitions {dup} have identical empirical distributions "
                             f"(and estimates) — they are copies of one draw", rep)
+
+
+def global_stream_clause(ctx, g, volume):
+    """repetitions drawn from the global numpy stream (no explicit seed_or_generator) of a tomography object that was
+    created with a data seed: the run is reproducible AND its repetitions are different draws"""
+    from quara.protocol.qtomography.standard.standard_qpt import StandardQpt
+    n = (2 if ctx.quick else 8) * volume
+    for t in range(n):
+        for kind in ("qst", "qpt"):
+            n_rep = int(g.integers(2, 5))
+            num_data = [int(g.choice([50, 100])), 300]
+            seed = int(g.integers(1, 10 ** 6))
+            via = ["ctor", "generate_qtomography"][t % 2]
+            rep = {"kind": "global-stream", "tomography": kind, "n_rep": n_rep, "num_data": num_data, "seed": seed, "via": via}
+            try:
+                a = global_stream_run(kind, n_rep, num_data, seed, via)
+                b = global_stream_run(kind, n_rep, num_data, seed, via)
+            except Exception as e:  # noqa
+                ctx.violate(f"C15/single-setting/global-stream/{kind}/raises", f"{type(e).__name__}: {e}", rep); continue
+            ctx.case(("global-stream", kind, n_rep, seed, via), sample={"clause": "global-stream", "tomography": kind, "n_rep": n_rep})
+            ctx.count(f"global-stream runs {kind}")
+            d = diff_single(a, b)
+            if d:
+                ctx.violate(f"C15/single-setting/global-stream/{kind}/rerun/{d}",
+                            f"tomography object seeded with {seed}, no explicit stream: two runs differ in {d}", rep)
+            dup = reps_identical(a["empi"])
+            if dup:
+                ctx.violate(f"C15/single-setting/global-stream/{kind}/repetitions-identical",
+                            f"tomography object created with seed_data={seed} ({via}), seed_or_generator=None, n_rep={n_rep}: "
+                            f"repetitions {dup} have identical empirical distributions (and estimates)", rep)
+
+
+def global_stream_run(kind, n_rep, num_data, seed, via):
+    from quara.protocol.qtomography.standard.standard_qpt import StandardQpt
+    c_sys = csys1()
+    povms = [generate_qoperation("povm", nm, c_sys) for nm in "xyz"]
+    states = [generate_qoperation("state", nm, c_sys) for nm in ("x0", "y0", "z0", "z1")]
+    if kind == "qst":
+        true, testers = generate_qoperation("state", "a", c_sys), povms
+    else:
+        true, testers = generate_qoperation("gate", "hadamard", c_sys), states + povms
+    if via == "ctor":
+        qt = (StandardQst(povms, on_para_eq_constraint=True, seed_data=seed) if kind == "qst"
+              else StandardQpt(states, povms, on_para_eq_constraint=True, seed_data=seed))
+    else:
+        st = StandardQTomographySimulationSetting(
+            name="g", true_object=true, tester_objects=testers, estimator=LinearEstimator(), seed_data=seed, n_rep=n_rep,
+            num_data=num_data, schedules="all", eps_proj_physical=1e-5, eps_truncate_imaginary_part=1e-5)
+        qt = sim.generate_qtomography(st, para=True)      # init_with_seed=True is the default
+    with quiet():
+        r = sim.generate_empi_dists_and_calc_estimate(qt, true, num_data, LinearEstimator(), iteration=n_rep,
+                                                      seed_or_generator=None)
+    return fingerprint_single(r)
 
 
 def fingerprint_single(r):
@@ -785,6 +839,13 @@ def replay(ctx, data):
             for x, y in zip(base, other):
                 print("   case", x["name"], "serial estimates", [v.tolist() for v in x["est"][-1]], "| parallel", [v.tolist() for v in y["est"][-1]])
             return 1 if (want in d if want else d) else 0
+    if r["kind"] == "global-stream":
+        fp = global_stream_run(r["tomography"], r["n_rep"], r["num_data"], r["seed"], r["via"])
+        for i, seq in enumerate(fp["empi"]):
+            print(f"  repetition {i}: empirical distributions (first sample size)", [p.tolist() for _, p in seq[0]][:4])
+        dup = reps_identical(fp["empi"])
+        print("  identical repetitions:", dup)
+        return 1 if dup else 0
     if r["kind"] == "depol":
         c_sys = csys1()
         obj = None
